@@ -466,6 +466,12 @@ def option_events(M, seed):
         add(2, g, {"rounds": V["in2"], "max_rounds": V["in3"]}, False, "rounds+max_rounds:ordered:num")
         add(2, g, {"rounds": V["in2"], "min_rounds": V["in1"]}, False, "rounds+min_rounds:ordered:num")
         add(2, g, {"rounds": V["in2"], "default_rounds": V["in3"]}, False, "rounds+default_rounds:outside:num")
+        # an explicit 0 next to rounds= (falsy but given: below the hard minimum of most formats, the minimum itself of
+        # sun_md5_crypt) -- strict and relaxed
+        for k in ("min_rounds", "max_rounds", "default_rounds"):
+            add(2, g, {"rounds": V["in2"], k: 0}, False, f"rounds+{k}:zero:num")
+            add(2, g, {"rounds": V["in2"], k: 0}, True, f"rounds+{k}:zero:num")
+            add(3, g, {"rounds": V["in2"], k: "0"}, False, f"rounds+{k}:zero:str")
         add(2, g, {"min_rounds": V["in1"], "min_desired_rounds": V["in1"]}, False, "min_rounds+min_desired_rounds:both:num")
         add(3, g, {"max_rounds": V["in3"], "max_desired_rounds": V["in3"]}, False, "max_rounds+max_desired_rounds:both:num")
         add(3, g, {"min_rounds": str(V["in1"]), "max_rounds": str(V["in3"]), "default_rounds": str(V["in2"])}, False,
